@@ -1159,6 +1159,11 @@ func ConstIntOf(v constant.Value) (int64, bool) {
 type Inliner struct {
 	FF      *FlowFuncs
 	InScope func(h *ssa.Function) bool
+	// OnInlined, if set, is called with the helper's flow in the context of one
+	// call (once per caller path reaching the call), so that a rule can decide
+	// the sites that a refactoring moved INTO the helper under the facts its
+	// callers established.
+	OnInlined func(h *ssa.Function, flow map[*ssa.BasicBlock]DNF)
 	stack   []*ssa.Function
 	edge    func(b *ssa.BasicBlock, idx int, t Tokens) bool
 }
@@ -1262,6 +1267,9 @@ func (il *Inliner) call(in ssa.Instruction, t Tokens) []Tokens {
 		}
 	}
 	flow := PathFlowFrom(h, *il.FF, init)
+	if il.OnInlined != nil {
+		il.OnInlined(h, flow)
+	}
 	res := h.Signature.Results()
 	var out DNF
 	for _, b := range h.Blocks {
